@@ -42,8 +42,8 @@ CHECKS = {
     "C03": {
         "test": "TestC03", "level": "exploration",
         "technique": "model-based stateful property testing (rapid): persistent model copies per snapshot/iterator",
-        "quick": {"shards": 16, "n": 800, "timeout": 600},
-        "thorough": {"shards": 16, "n": 40000, "timeout": 3000},
+        "quick": {"shards": 16, "n": 400, "timeout": 600},
+        "thorough": {"shards": 16, "n": 20000, "timeout": 3000},
         "floor": {"quick": 1000, "thorough": 30000},
         "rule": "rapid draws histories with up to 6 simultaneously live snapshots and 4 live iterators, point reads / scans / resumed walks through them, interleaved with writes, deletes, flushes, automatic and manual compactions; each handle is compared with the model copy taken at its creation, and after releasing one handle all others and the live DB are re-checked. "
                 "Non-trivial: a handle was read after a table compaction that ran after a key visible through it had been overwritten or deleted.",
@@ -66,8 +66,8 @@ CHECKS = {
     "C07": {
         "test": "TestC07", "level": "exploration",
         "technique": "stateful property testing: long-lived iterators vs. model copies plus storage-listing invariants at quiescence",
-        "quick": {"shards": 16, "n": 600, "timeout": 600},
-        "thorough": {"shards": 16, "n": 30000, "timeout": 3000},
+        "quick": {"shards": 12, "n": 300, "timeout": 600, "extra": [{"test": "TestC07F", "n": 120, "shards": 6}]},
+        "thorough": {"shards": 12, "n": 12000, "timeout": 3000, "extra": [{"test": "TestC07F", "n": 4000, "shards": 6}]},
         "floor": {"quick": 300, "thorough": 10000},
         "rule": "rapid draws histories with long-lived iterators (OpenFilesCacheCapacity 1-2 so tables are reopened from storage), compactions, discarded transactions and reopen. Oracle A: every iterator is walked and fully scanned at the end and must equal its model copy; the storage flags any Open of a removed table. "
                 "Oracle B: at idle points (VerifWaitIdle) with no iterator or transaction alive, and after reopen, storage must hold exactly the live tables, one journal, the current manifest. Non-trivial: an iterator stayed alive across >=1 table removal and >=1 file-set check ran.",
@@ -78,8 +78,8 @@ CHECKS = {
     "C11": {
         "test": "TestC11", "level": "exploration",
         "technique": "model-based stateful property testing (rapid): transaction overlay model",
-        "quick": {"shards": 16, "n": 700, "timeout": 600},
-        "thorough": {"shards": 16, "n": 30000, "timeout": 3000},
+        "quick": {"shards": 12, "n": 700, "timeout": 600, "extra": [{"test": "TestC11F", "n": 120, "shards": 6}]},
+        "thorough": {"shards": 12, "n": 30000, "timeout": 3000, "extra": [{"test": "TestC11F", "n": 4000, "shards": 6}]},
         "floor": {"quick": 1000, "thorough": 20000},
         "rule": "rapid draws histories with OpenTransaction, transaction writes spanning several internal flushes, reads inside (overlay model) and outside (model at open) the transaction, Commit, Discard, Close with an open transaction, oversized DB.Write batches; after Discard/Commit/reopen a full sweep is compared with the model and, at idle, storage must contain no table outside the live set. "
                 "Non-trivial: a transaction was committed or discarded in a case that also flushed buffers.",
